@@ -1,6 +1,7 @@
 package main
 
 import (
+	"crypto/ecdsa"
 	"bytes"
 	"crypto"
 	"encoding/base64"
@@ -151,6 +152,7 @@ func c17Spaces(c *fw.Ctx) {
 	c17NoHashSpace(c)
 	c17FixedKeySpace(c)
 	c17FreshKeySpace(c)
+	c17KeyShapeSpace(c)
 	c17ValiditySpace(c)
 }
 
@@ -818,6 +820,68 @@ func c17FreshKeySpace(c *fw.Ctx) {
 						r.Sample(func() any { return fmt.Sprintf("Generate(%d) algorithm %d", s.bits, s.alg) })
 					})
 				}
+			}
+		})
+}
+
+// c17KeyShapeSpace: ECDSA public keys are two fixed-width integers (RFC 6605 §4: 32 / 48 octets each, left-padded).
+// A generated point whose X, whose Y or both have a leading zero octet takes the padding path of the encoder; the
+// last shape turns up once in 65 536 keys, so Generate is repeated until every shape has been seen (deterministic
+// in what is checked, not in which key shows it).
+func c17KeyShapeSpace(c *fw.Ctx) {
+	type gs struct {
+		alg   uint8
+		bits  int
+		width int
+	}
+	specs := []gs{{dns.ECDSAP256SHA256, 256, 32}, {dns.ECDSAP384SHA384, 384, 48}}
+	c.Space("generated-key-shapes", "DNSKEY.Generate for ECDSA P-256 and P-384 repeated until the generated public point has been seen with a leading zero octet in X only, in Y only and in both (≤ 600 000 keys, about 65 536 expected): for the first key of each shape the public key field is the RFC 6605 fixed-width encoding, PrivateKeyString → NewPrivateKey gives the key back, and signatures verify both ways; non-trivial: all", true,
+		func(emit func(func(*fw.R))) {
+			for _, s := range specs {
+				s := s
+				emit(func(r *fw.R) {
+					r.Nontrivial()
+					seen := map[string]bool{}
+					for try := 0; try < 600000 && len(seen) < 3; try++ {
+						k := &dns.DNSKEY{Hdr: dns.RR_Header{Name: "Example.", Rrtype: dns.TypeDNSKEY, Class: dns.ClassINET, Ttl: 3600},
+							Flags: 257, Protocol: 3, Algorithm: s.alg}
+						priv, err := k.Generate(s.bits)
+						if err != nil {
+							r.Fail("generate/error", "Generate(%d) for algorithm %d: %v", s.bits, s.alg, err)
+							return
+						}
+						ep, ok := priv.(*ecdsa.PrivateKey)
+						if !ok {
+							r.Fail("generate/type", "Generate returned %T", priv)
+							return
+						}
+						xs, ys := len(ep.X.Bytes()) < s.width, len(ep.Y.Bytes()) < s.width
+						shape := map[[2]bool]string{{true, false}: "x-short", {false, true}: "y-short", {true, true}: "both-short"}[[2]bool{xs, ys}]
+						if shape == "" || seen[shape] {
+							continue
+						}
+						seen[shape] = true
+						what := fmt.Sprintf("Generate(%d) for algorithm %d, public point with %s coordinate(s) → DNSKEY %s", s.bits, s.alg, shape, k.String())
+						c17PublicKeyMatches(r, "generate", what, k, priv)
+						_, reread, refread := c17ExportImport(r, "export", what, k, priv)
+						lib := map[string]crypto.PrivateKey{"generated": priv}
+						ref := map[string]crypto.PrivateKey{}
+						if reread != nil {
+							lib["re-read"] = reread
+						}
+						if refread != nil {
+							ref["exported(reference reader)"] = refread
+						}
+						c17Interchange(r, "interchange", what, k, lib, ref)
+					}
+					for _, sh := range []string{"x-short", "y-short", "both-short"} {
+						if seen[sh] {
+							r.Count("shape seen: "+sh, 1)
+						} else {
+							r.Count("shape not seen within 600000 keys: "+sh, 1)
+						}
+					}
+				})
 			}
 		})
 }
